@@ -454,7 +454,7 @@ def main():
     sys.path.insert(0, ROOT)
     import verif
     path = sys.argv[2]
-    verif.build_harness()
+    verif.build_harness("C20")
     ctx = {"env": verif.ENV, "sh": verif.sh, "root": ROOT, "harness_target_dir": verif.harness_target_dir(),
            "MachineryError": verif.MachineryError}
     rlib, deps = locate_rlib(ctx)
